@@ -39,14 +39,14 @@ func (l *FileLog) Replay() error {
 	}
 	return err
 }
-func (l *FileLog) Close() error                                  { return l.real.Close() }
-func (l *FileLog) GetEntry(i uint64) (*raft.LogEntry, error)     { return l.real.GetEntry(i) }
-func (l *FileLog) Contains(i uint64) bool                        { return l.real.Contains(i) }
-func (l *FileLog) LastIndex() uint64                             { return l.real.LastIndex() }
-func (l *FileLog) LastTerm() uint64                              { return l.real.LastTerm() }
-func (l *FileLog) NextIndex() uint64                             { return l.real.NextIndex() }
-func (l *FileLog) Size() int                                     { return l.real.Size() }
-func (l *FileLog) AppendEntry(e *raft.LogEntry) error            { return l.AppendEntries([]*raft.LogEntry{e}) }
+func (l *FileLog) Close() error                              { return l.real.Close() }
+func (l *FileLog) GetEntry(i uint64) (*raft.LogEntry, error) { return l.real.GetEntry(i) }
+func (l *FileLog) Contains(i uint64) bool                    { return l.real.Contains(i) }
+func (l *FileLog) LastIndex() uint64                         { return l.real.LastIndex() }
+func (l *FileLog) LastTerm() uint64                          { return l.real.LastTerm() }
+func (l *FileLog) NextIndex() uint64                         { return l.real.NextIndex() }
+func (l *FileLog) Size() int                                 { return l.real.Size() }
+func (l *FileLog) AppendEntry(e *raft.LogEntry) error        { return l.AppendEntries([]*raft.LogEntry{e}) }
 func (l *FileLog) AppendEntries(es []*raft.LogEntry) error {
 	err := l.real.AppendEntries(es)
 	if err == nil {
